@@ -24,6 +24,7 @@ def run(F, tier):
     jsonsurf.j4(rep, F, S)
     jsonsurf.j5(rep, F, S)
     jsonsurf.j6(rep, F, tms)
+    jsonsurf.j7(rep, F)
     numdate.strftime_census(rep, F)
     numdate.n1(rep, F)
     r, tabs, ids = dispatch.d1(rep, F)
